@@ -162,7 +162,9 @@ def run_unit(unit_path, repo, verif, workdir, features=None, rlimit=None, timeou
             exit_text = " ".join(t["text"].strip() for t in other[0].get("text", []))[:200]
         # clause-level property tags: `// [C04]` or `// [C02,C04]` on the clause's first line
         ctag = re.search(r"//\s*\[((?:C\d+,?\s*)+)\]", gen_lines[line - 1] if 0 < line <= len(gen_lines) else "")
-        props = [x.strip() for x in ctag.group(1).split(",")] if ctag else (it.get("props", []) if it else [])
+        # an explicit clause tag `// [C04]` restricts the clause to those properties; otherwise a failing obligation counts
+        # for every property the unit serves (callers are verified against the contract, so a broken contract breaks them all)
+        props = [x.strip() for x in ctag.group(1).split(",")] if ctag else []
         rec = {"function": fn, "message": msg, "clause": clause_text, "clause_line": line, "exit": exit_text,
                "props": props, "file": it["file"] if it else None, "semantic": semantic,
                "rendered": d.get("rendered", "")[:3000]}
